@@ -469,6 +469,11 @@ func smbRt(a []string) string {
 	if _, err := d.Unmarshal(b); err != nil {
 		return "err-decode"
 	}
+	if c13Used(a) { // a command object that is decoded into a second time must show the second message only
+		if _, err := d.Unmarshal(append([]byte{}, b...)); err != nil {
+			return "err-decode"
+		}
+	}
 	dec := fieldTokens(d, g)
 	fd := "eq"
 	for i := range after {
